@@ -161,10 +161,11 @@ func copyOfRule(rule *Rule) Rule {
 //
 //	reduce or do not call GetRulesOfResource frequently if possible.
 func GetRulesOfResource(res string) []Rule {
+	// (the list and what its controllers stand for are read under one lock: a load switches both at once)
 	tcMux.RLock()
-	resTcs := tcMap[res]
-	tcMux.RUnlock()
+	defer tcMux.RUnlock()
 
+	resTcs := tcMap[res]
 	ret := make([]Rule, 0, len(resTcs))
 	for _, tc := range resTcs {
 		ret = append(ret, reportedRuleOf(tc))
@@ -238,6 +239,10 @@ func onRuleUpdate(rawResRulesMap map[string][]*Rule) (err error) {
 
 	tcMux.Lock()
 	tcMap = m
+	// (what the load changes in the rule-in-force table takes effect in the same critical section: committed
+	// after it - behind the unlock and the log line - a getter in between reported the new list with the IDs
+	// of the old one, a list nobody ever loaded)
+	endRuleInForceEdits(true)
 	tcMux.Unlock()
 	published = true
 
@@ -286,6 +291,7 @@ func onResourceRuleUpdate(res string, rawResRules []*Rule) (err error) {
 	} else {
 		tcMap[res] = newResTcs
 	}
+	endRuleInForceEdits(true)
 	tcMux.Unlock()
 	published = true
 
